@@ -315,3 +315,117 @@ Theorem c17_zero_int_now :
   roundtrip_py [ZERO_MAP] ZERO_FLOAT NAME_FORMAT_URI false true = ROk [("loginCount", [LStr "0.0"; LStr "1.5"])].
 Proof. exact zero_now_holds. Qed.
 Print Assumptions c17_zero_int_now.
+
+(* ================================================================================================== *)
+(* ---- source tie, translator v2 (C17/Source2.v): the functions below are re-translated from the source TEXT of
+   /repo/src/saml2 on every run (coq/gen/C17Src2.v) and are equal to the model on the encodings of ALL its inputs.
+   From here on pyval, PStr, PInt ... are those of Base/Py.v; the model's value type is written Model.pyval. *)
+From Verif Require Import Base.Py Base.Py2 C17.Source2.
+From VerifGen Require Import C17Src2.
+
+(* AttributeConverter.adjust: the missing table becomes Model.mirror of the other one; nothing else changes *)
+Theorem c17_source2_adjust : forall (nfv : pyval) (t f : option dict),
+  odict_ok nocls t = true -> odict_ok nocls f = true ->
+  odict_ok vals_ascii t = true -> odict_ok vals_ascii f = true ->
+  odict_ok vals_lower_ok t = true -> odict_ok vals_lower_ok f = true ->
+  src2_adjust (conv_obj nfv (enc_odict t) (enc_odict f))
+  = PList [PNone; conv_obj nfv (enc_odict (fst (adjust_m t f))) (enc_odict (snd (adjust_m t f)))].
+Proof. exact src2_adjust_is_model. Qed.
+Print Assumptions c17_source2_adjust.
+
+(* AttributeConverter.from_dict on a fresh converter: ConverterError exactly when Model.from_dict is None; the tables
+   with lower-cased keys; adjust() is called exactly for the one-directional maps (adjust_ext is arbitrary) *)
+Theorem c17_source2_from_dict : forall (adjust_ext : pyval -> pyval) (nf0 : pyval) (s : srcmap),
+  is_bad nf0 = false -> src_ok s ->
+  src2_from_dict adjust_ext (conv_obj nf0 PNone PNone) (enc_src s)
+  = match s_to s, s_fro s with
+    | None, None => PList [PExc "ConverterError"; conv_obj (PStr (s_ident s)) PNone PNone]
+    | Some _, Some _ => PList [PNone; loaded s]
+    | _, _ => py_bindh (fun n => PList [PExc n; loaded s]) (adjust_ext (loaded s)) (fun _ => PList [PNone; loaded s])
+    end.
+Proof. exact src2_from_dict_is_model. Qed.
+Print Assumptions c17_source2_from_dict.
+
+(* ... and the translated adjust() on what from_dict() leaves gives the converter of Model.from_dict *)
+Theorem c17_source2_from_dict_then_adjust : forall (s : srcmap) (c : conv),
+  src_ok s ->
+  odict_ok vals_ascii (option_map lower_keys (s_to s)) = true -> odict_ok vals_ascii (option_map lower_keys (s_fro s)) = true ->
+  odict_ok vals_lower_ok (option_map lower_keys (s_to s)) = true ->
+  odict_ok vals_lower_ok (option_map lower_keys (s_fro s)) = true ->
+  from_dict s = Some c ->
+  src2_adjust (loaded s) = PList [PNone; enc_conv c].
+Proof. exact src2_from_dict_then_adjust. Qed.
+Print Assumptions c17_source2_from_dict_then_adjust.
+
+(* AttributeConverter.to_ = Model.conv_to_py (name lookup under key.lower(), empty wire name = unknown, the
+   eduPersonTargetedID OID, unknown names under their own name with the default name format, first exception wins);
+   do_ava / to_eptid_value / factory(saml.Attribute, ...) are external *)
+Theorem c17_source2_to_ :
+  forall (do_ava_ext eptid_ext : pyval -> pyval) (factory_ext : pyval -> pyval -> pyval -> pyval -> pyval -> pyval),
+  (forall v, do_ava_ext (enc_pvalue v) = match do_ava v with DOk tvs => PList (map enc_tv tvs) | DRaise e => PExc e end) ->
+  (forall v, eptid_ext (enc_pvalue v)
+             = match eptid_value v with
+               | DOk vs => PList (map (enc_nidv [("format", NAMEID_FORMAT_PERSISTENT)]) vs)
+               | DRaise e => PExc e
+               end) ->
+  (forall n nfv fr av, factory_ext (PStr "saml.Attribute") n nfv fr av = attr_obj n nfv fr av) ->
+  forall (m : conv) (a : pava), nocls (to_ m) = true -> names_ok a = true ->
+  src2_to_ do_ava_ext eptid_ext factory_ext (enc_conv m) (enc_pava a) = enc_send (conv_to_py m a).
+Proof. exact src2_to_is_model. Qed.
+Print Assumptions c17_source2_to_.
+
+(* from_local: to_() of the FIRST converter with the requested name format (Model.sender), None without one;
+   nothing is assumed about to_ *)
+Theorem c17_source2_from_local : forall (to_ext : pyval -> pyval -> pyval) (acs : list conv) (ava : pyval) (f : string),
+  is_bad ava = false ->
+  src2_from_local to_ext (PList (map enc_conv acs)) ava (PStr f)
+  = match sender acs f with Some m => to_ext (enc_conv m) ava | None => PNone end.
+Proof. exact src2_from_local_is_model. Qed.
+Print Assumptions c17_source2_from_local.
+
+(* ... with the translated to_ as that method: Model.from_local_py *)
+Theorem c17_source2_from_local_to :
+  forall (do_ava_ext eptid_ext : pyval -> pyval) (factory_ext : pyval -> pyval -> pyval -> pyval -> pyval -> pyval)
+         (acs : list conv) (a : pava) (f : string),
+  (forall v, do_ava_ext (enc_pvalue v) = match do_ava v with DOk tvs => PList (map enc_tv tvs) | DRaise e => PExc e end) ->
+  (forall v, eptid_ext (enc_pvalue v)
+             = match eptid_value v with
+               | DOk vs => PList (map (enc_nidv [("format", NAMEID_FORMAT_PERSISTENT)]) vs)
+               | DRaise e => PExc e
+               end) ->
+  (forall n nfv fr av, factory_ext (PStr "saml.Attribute") n nfv fr av = attr_obj n nfv fr av) ->
+  forallb (fun m => nocls (to_ m)) acs = true -> names_ok a = true ->
+  src2_from_local (src2_to_ do_ava_ext eptid_ext factory_ext) (PList (map enc_conv acs)) (enc_pava a) (PStr f)
+  = enc_sres (from_local_py acs a f).
+Proof. exact src2_from_local_to_is_model. Qed.
+Print Assumptions c17_source2_from_local_to.
+
+(* AttributeConverter.lcd_ava_from = Model.lcd for an Attribute that has a Name: for EVERY object that represents it *)
+Theorem c17_source2_lcd_ava_from : forall (self p : pyval) (w : wattr) (n : string),
+  wname w = Some n -> rep_attr p n (wvals w) ->
+  strip_ok n = true -> forallb (fun v => strip_ok (text_of v)) (wvals w) = true ->
+  src2_lcd_ava_from self p = enc_res (lcd w).
+Proof. exact src2_lcd_ava_from_is_model. Qed.
+Print Assumptions c17_source2_lcd_ava_from.
+
+(* s_utils.do_ava, one object: the branch Model.do_ava1 takes (None -> None; str, bool, int — 0 and False included —
+   and float -> set_text(that object) on a new AttributeValue); set_text and the recursive call are arbitrary *)
+Theorem c17_source2_do_ava_item :
+  forall (set_text set_type : pyval -> pyval -> pyval) (rec : pyval -> pyval) (v : Model.pyval),
+  src2_do_ava rec set_text set_type (enc_pitem v) (PStr "")
+  = match do_ava1 v with
+    | DOk None => PNone
+    | DOk (Some _) => py_bind (set_text blank_av (enc_pitem v)) (fun _ => PList [blank_av])
+    | DRaise e => PExc e
+    end.
+Proof. exact src2_do_ava_item_is_model. Qed.
+Print Assumptions c17_source2_do_ava_item.
+
+(* s_utils.do_ava on Model.do_ava's domain (a list without None items through the recursive call, or one object):
+   one AttributeValue per item, in order *)
+Theorem c17_source2_do_ava : forall set_text set_type : pyval -> pyval -> pyval,
+  (forall a v, is_bad (set_text a v) = false) ->
+  forall v : pyvalue, value_modelled v = true ->
+  do_ava_2 set_text set_type (enc_pvalue v) = enc_blank (do_ava v).
+Proof. exact src2_do_ava_is_model. Qed.
+Print Assumptions c17_source2_do_ava.
